@@ -17,6 +17,10 @@ import (
 
 // loopSpec supplies the cursor-specific atoms.
 type loopSpec struct {
+	// local: the cycle neither touches the cursor nor calls a function of the cursor model; such a
+	// purely local loop (binary search, retry counters …) is outside the cursor argument and is only
+	// required to have an exit test on a value that changes inside the loop
+	local         func(c []*ssa.BasicBlock) bool
 	progressBlock func(b *ssa.BasicBlock) bool
 	progressEdge  func(b *ssa.BasicBlock, k int) bool
 	nonEndEdge    func(b *ssa.BasicBlock, k int) bool
@@ -251,6 +255,61 @@ func sameAddr(a, b ssa.Value) bool {
 	return false
 }
 
+// varyingExit: some exit test of the cycle depends on a value that changes inside the cycle
+// (a phi of the cycle or a cell stored to in the cycle).
+func varyingExit(c []*ssa.BasicBlock) bool {
+	in := blockSet(c)
+	stored := map[ssa.Value]bool{}
+	for _, b := range c {
+		for _, ins := range b.Instrs {
+			if st, ok := ins.(*ssa.Store); ok {
+				stored[st.Addr] = true
+			}
+		}
+	}
+	var varies func(v ssa.Value, d int) bool
+	varies = func(v ssa.Value, d int) bool {
+		if d > 6 || v == nil {
+			return false
+		}
+		switch x := v.(type) {
+		case *ssa.Phi:
+			return in[x.Block()]
+		case *ssa.BinOp:
+			return varies(x.X, d+1) || varies(x.Y, d+1)
+		case *ssa.UnOp:
+			if x.Op == token.MUL && stored[x.X] {
+				return true
+			}
+			return varies(x.X, d+1)
+		case *ssa.Call:
+			for _, a := range x.Call.Args {
+				if varies(a, d+1) {
+					return true
+				}
+			}
+		case *ssa.Convert:
+			return varies(x.X, d+1)
+		case *ssa.Extract:
+			return varies(x.Tuple, d+1)
+		}
+		return false
+	}
+	for _, b := range c {
+		iff, ok := b.Instrs[len(b.Instrs)-1].(*ssa.If)
+		if !ok || len(b.Succs) != 2 {
+			continue
+		}
+		if in[b.Succs[0]] && in[b.Succs[1]] {
+			continue
+		}
+		if varies(iff.Cond, 0) {
+			return true
+		}
+	}
+	return false
+}
+
 // loopFinding is one residual cycle.
 type loopFinding struct {
 	ordinal int
@@ -271,13 +330,13 @@ func checkLoops(fn *ssa.Function, spec loopSpec) (nloops int, bounded int, findi
 		resB := blockSCCs(fn, nil, func(b *ssa.BasicBlock, k int) bool { return !spec.nonEndEdge(b, k) }, in)
 		allBounded := true
 		for _, c := range resA {
-			if ok, _ := boundedCycle(fn, c); !ok {
+			if ok, _ := boundedCycle(fn, c); !ok && !(spec.local != nil && spec.local(c) && varyingExit(c)) {
 				allBounded = false
 				findings = append(findings, loopFinding{i + 1, "no-progress", firstPos(c), c})
 			}
 		}
 		for _, c := range resB {
-			if ok, _ := boundedCycle(fn, c); !ok {
+			if ok, _ := boundedCycle(fn, c); !ok && !(spec.local != nil && spec.local(c) && varyingExit(c)) {
 				allBounded = false
 				findings = append(findings, loopFinding{i + 1, "end-spin", firstPos(c), c})
 			}
@@ -488,6 +547,10 @@ func (m *parserModel) tzAtom(in ssa.Instruction) bool {
 	case *ssa.Call:
 		f := x.Call.StaticCallee()
 		if f != nil && f.Signature.Recv() != nil && core.NamedOf(f.Signature.Recv().Type()) == m.posT && f.Name() == "AdvanceRune" && len(x.Call.Args) > 0 && m.tzField(x.Call.Args[0], "pos") {
+			return true
+		}
+		// AdvanceN(n, …) moves the cursor by n when n > 0
+		if f != nil && f.Signature.Recv() != nil && core.NamedOf(f.Signature.Recv().Type()) == m.posT && f.Name() == "AdvanceN" && len(x.Call.Args) > 1 && m.tzField(x.Call.Args[0], "pos") && positiveStep(x.Call.Args[1], 0) {
 			return true
 		}
 	case *ssa.Store:
@@ -1074,6 +1137,32 @@ func (m *parserModel) progressEdge(b *ssa.BasicBlock, k int) bool {
 
 func (m *parserModel) spec() loopSpec {
 	return loopSpec{
+		local: func(c []*ssa.BasicBlock) bool {
+			for _, b := range c {
+				for _, in := range b.Instrs {
+					switch x := in.(type) {
+					case *ssa.FieldAddr:
+						if m.kind == "tokenizer" {
+							if m.tzField(x, "pos") {
+								return false
+							}
+						} else if isFieldOf(x, m.T, "currentPos") || isFieldOf(x, m.T, "currentToken") {
+							return false
+						}
+					case ssa.CallInstruction:
+						if f := x.Common().StaticCallee(); f != nil && (m.isParserFn(f) || f.Parent() != nil) {
+							return false
+						}
+						if x.Common().StaticCallee() == nil && !x.Common().IsInvoke() {
+							if _, isB := x.Common().Value.(*ssa.Builtin); !isB {
+								return false
+							}
+						}
+					}
+				}
+			}
+			return true
+		},
 		progressBlock: m.progressBlock,
 		progressEdge:  m.progressEdge,
 		nonEndEdge: func(b *ssa.BasicBlock, k int) bool {
